@@ -623,3 +623,176 @@ def check_tz(prop, tier, seed):
                    "`local` is whatever the sandbox's TZ is (UTC here)"]
     mine = [v for v in agg["viols"] if v["prop"] == prop]
     return verdict(prop, tier, seed, "exploration", coverage, mine, assumptions, t0, replay_writer)
+
+
+def vrl_str(s):
+    return '"' + s.replace("\\", "\\\\").replace('"', '\\"').replace("{", "\\{").replace("}", "\\}") + '"'
+
+
+def dd_events():
+    def ev(**kw):
+        m = {}
+        for k, v in kw.items():
+            m[k] = v
+        return {"t": "obj", "m": m}
+    S = lambda s: {"t": "bytes", "s": s}
+    I = lambda n: {"t": "int", "n": n}
+    F15 = {"t": "float", "b": [16376, 0, 0, 0]}
+    tags = lambda *xs: {"t": "arr", "e": [S(x) for x in xs]}
+    return [ev(), ev(message=S("x")), ev(message=S("x y"), a=S("x"), tags=tags("k:v")), ev(message=S("xy"), a=S("xy"), n=I(1), tags=tags("k:w", "z")),
+            ev(message=S("a:b"), a=S("x y"), n=F15, service=S("x"), host=S("h1"), status=S("error"), tags=tags("k:v w", "k:v-w")),
+            ev(message=S("y"), a=I(1), b={"t": "obj", "m": {"c": I(1)}}, n=I(2), source=S("a b"), tags=tags("k")),
+            ev(message=S("x*"), a=S("(x)"), n=S("1"), tags=tags("k:v", "k:vv")), ev(a={"t": "arr", "e": [S("x"), S("y")]}, n=I(3), message=S("a \" b"))]
+
+
+def check_dd(prop, tier, seed):
+    t0 = time.time()
+    wd = workdir(f"{prop}_{tier}")
+    build_harness()
+    U, gst, gtr = universes("DdSearch.tla", wd, ["LEAVES", "DEPTH1", "DEPTH2"])
+    leaves, d1, d2 = U["LEAVES"], U["DEPTH1"], U["DEPTH2"]
+    rnd = random.Random(seed)
+    cases = []
+    if prop == "C30":
+        qs = leaves + d1 + d2
+        if tier == "quick" and len(qs) > 12000:
+            qs = leaves + rnd.sample(d1, 6000) + rnd.sample(d2, min(len(d2), 4000))
+        for q in qs:
+            # the circumstance that names a finding: which escape the text contains, else its outermost construct
+            shape = q["shape"]
+            for esc, nm in (("\\ ", "escaped-space"), ("\\:", "escaped-colon"), ("\\-", "escaped-dash"), ("\\*", "escaped-star"), ("\\(", "escaped-paren"), ("\\\"", "escaped-quote")):
+                if esc in q["q"]:
+                    shape = nm
+                    break
+            cases.append({"worker": "ddq", "f": "ddq", "args": [], "ret": [], "src": q["q"], "q": q["q"], "shape": shape})
+    else:
+        events = dd_events()
+        pairs = [(a, b) for a in leaves for b in leaves]
+        if tier == "quick":
+            pairs = rnd.sample(pairs, 500)
+        for a, b in pairs:
+            A, B = a["q"], b["q"]
+            m = lambda q: f"match_datadog_query(., {vrl_str(q)})"
+            exprs = {"A": m(A), "B": m(B), "and": m(f"{A} AND {B}"), "or": m(f"{A} OR {B}"), "notA": m(f"NOT ({A})"), "negA": m(f"-({A})"),
+                     "grpA": m(f"({A})"), "juxt": m(f"({A}) ({B})"), "nested": m(f"NOT (({A}) AND ({B})) OR ({B})")}
+            for e in events:
+                cases.append({"worker": "eval", "f": "match_datadog_query", "args": [], "ret": [], "src": f"{A} | {B}", "law": {"name": "dd_compose", "fn": "match_datadog_query"},
+                              "inp": {"a": A, "b": B, "shape": a["shape"] + "/" + b["shape"]}, "event": e, "exprs": exprs})
+        for f in ["@n", "@a", "k", "service"]:
+            for lo, hi in [("1", "2"), ("1", "1"), ("0", "1.5"), ("a", "y"), ("x", "x"), ("*", "2"), ("1", "*")]:
+                for lb, ub, incl in [("[", "]", True), ("{", "}", False)]:
+                    rng = f"{f}:{lb}{lo} TO {hi}{ub}"
+                    loq = "*" if lo == "*" else f"{f}:{'>=' if incl else '>'}{lo}"
+                    hiq = "*" if hi == "*" else f"{f}:{'<=' if incl else '<'}{hi}"
+                    m = lambda q: f"match_datadog_query(., {vrl_str(q)})"
+                    for e in events:
+                        cases.append({"worker": "eval", "f": "match_datadog_query", "args": [], "ret": [], "src": rng, "law": {"name": "dd_range", "fn": "match_datadog_query"},
+                                      "inp": {"range": rng, "shape": ("inclusive" if incl else "exclusive") + ("-open" if "*" in (lo, hi) else "") + ":" + f},
+                                      "event": e, "exprs": {"range": m(rng), "lo": m(loq), "hi": m(hiq)}})
+    rnd.shuffle(cases)
+    log(f"[{prop}] {len(cases)} cases ({time.time()-t0:.0f}s)")
+    cpath = os.path.join(wd, "cases.ndjson")
+    with open(cpath, "w") as f:
+        for c in cases:
+            f.write(json.dumps(c) + "\n")
+    run([VH, "calls", "--cases", cpath, "--out", os.path.join(wd, "tr"), "--shards", str(NCPU), "--deadline-ms", "20000"], cwd=wd, timeout=7200)
+    traces = [os.path.join(wd, f"tr.{i}.ndjson") for i in range(NCPU)]
+    agg = aggregate(validate(traces, wd, spec="FnLaws.tla", cfg=TRACE_CFG))
+    cnt = agg["cnt"]
+    write_json(os.path.join(wd, "findings.json"), {"viols": agg["viols"][:500]})
+
+    def replay_writer(v):
+        with open(v["_file"]) as f:
+            line = f.readlines()[v["line"] - 1]
+        return {"engine": "C/dd", "record": json.loads(line)}
+
+    level = "exploration" if prop == "C30" else "model_checking"
+    coverage = {
+        "evaluations": cnt.get("laws", 0), "distinct_nontrivial": cnt.get(prop, 0),
+        "rule": ("query texts generated by DdSearch.tla from the search grammar: 46 leaves (terms, phrases, prefix/infix wildcards, attributes, tags, reserved "
+                 "fields, comparisons, inclusive/exclusive/open ranges, existence, escapes, negations), all AND/OR/juxtaposition/group/negated-group "
+                 "combinations of two leaves, and two levels of nesting over representatives" if prop == "C30" else
+                 "pairs of leaf queries of DdSearch.tla x 8 events over the vocabulary {message, @a, @b.c, @n, tags k, service, host, status, source} "
+                 "(strings, numbers, arrays, absent): the real results for A, B, A AND B, A OR B, NOT (A), -(A), (A), (A) (B), NOT ((A) AND (B)) OR (B), "
+                 "and ranges vs their two bounds on attribute, tag and reserved fields") + "; every instance counts",
+        "samples": [{"src": c["src"]} for c in cases[:3]],
+        "states": gst + agg["states"], "transitions": gtr + agg["transitions"], "traces_validated_against_impl": cnt.get("laws", 0),
+        "leaves": len(leaves), "depth1_texts": len(d1), "depth2_texts": len(d2),
+    }
+    assumptions = ["C31: leaf semantics are taken from the real matcher; the compositional identities are what TLC checks (ranges only on one concrete "
+                   "field - an unqualified term expands to several default fields, where any_f(lo and hi) is not any_f(lo) and any_f(hi))",
+                   "trees are compared through QueryNode's PartialEq and Debug rendering"]
+    mine = [v for v in agg["viols"] if v["prop"] == prop]
+    return verdict(prop, tier, seed, level, coverage, mine, assumptions, t0, replay_writer)
+
+
+def check_grok(prop, tier, seed):
+    t0 = time.time()
+    wd = workdir(f"{prop}_{tier}")
+    build_harness()
+    cfg = f'SPECIFICATION Spec\nCONSTANT Tier = "{tier}"\nCHECK_DEADLOCK FALSE\n'
+    out = tlc("Grok.tla", cfg, wd, workers=4, name="Gen_Grok", timeout=1800)
+    cyc, lits, caps = printed(out, "CYC"), printed(out, "LITS"), printed(out, "CAPS")
+    if not (cyc and lits and caps):
+        raise ToolError("Grok.tla did not print its cases:\n" + out[-2000:])
+    cyc, lits, caps = cyc[0], lits[0], caps[0]
+    gst, gtr = tlc_stats(out)
+    rnd = random.Random(seed)
+    cases = []
+
+    def add(inp, rule, aliases, text):
+        al = ""
+        if aliases:
+            al = ", aliases: { " + ", ".join(f"{vrl_str(k)}: {vrl_str(v)}" for k, v in sorted(aliases.items())) + " }"
+        expr = f"parse_groks!(.s, patterns: [{vrl_str(rule)}]{al})"
+        cases.append({"worker": "eval", "f": "parse_groks", "args": [], "ret": [], "src": expr, "law": {"name": "grok", "fn": "parse_groks"},
+                      "inp": inp, "event": {"t": "obj", "m": {"s": {"t": "bytes", "s": text}}}, "exprs": {"out": expr}})
+
+    for c in cyc:
+        add({"kind": "cyc", "shape": "alias-cycle" if c["cyclic"] else "alias-dag", "cyclic": c["cyclic"], "rule": c["rule"], "aliases": c["aliases"]},
+            c["rule"], c["aliases"], c["input"])
+    texts = [l["text"] for l in lits]
+    for l in lits:
+        add({"kind": "lit", "shape": "literal", "rule": l["rule"], "input": l["text"]}, l["rule"], None, l["text"])
+        for other in rnd.sample(texts, 6 if tier == "quick" else 30):
+            if other != l["text"]:
+                add({"kind": "nomatch", "shape": "literal", "rule": l["rule"], "input": other}, l["rule"], None, other)
+    if tier == "quick":
+        pos = [c for c in caps if c["expect_match"]]
+        neg = [c for c in caps if not c["expect_match"]]
+        caps = rnd.sample(pos, min(len(pos), 2500)) + rnd.sample(neg, 2500)
+    for c in caps:
+        caps_law = {k: ({"t": "bytes", "s": v["s"], "u": [ord(ch) for ch in v["s"]]} if v["t"] == "bytes" else
+                        {"t": "int", "n": v["n"], "w": [(v["n"] % 2**64 >> s) & 0xffff for s in (48, 32, 16, 0)]}) for k, v in (c["caps"] or {}).items()} if c["expect_match"] else {}
+        add({"kind": "cap", "shape": c["shape"], "rule": c["rule"], "input": c["input"], "expect_match": c["expect_match"], "caps": caps_law}, c["rule"], None, c["input"])
+    rnd.shuffle(cases)
+    log(f"[{prop}] {len(cases)} grok cases ({time.time()-t0:.0f}s)")
+    cpath = os.path.join(wd, "cases.ndjson")
+    with open(cpath, "w") as f:
+        for c in cases:
+            f.write(json.dumps(c) + "\n")
+    run([VH, "calls", "--cases", cpath, "--out", os.path.join(wd, "tr"), "--shards", str(NCPU), "--deadline-ms", "20000"], cwd=wd, timeout=7200)
+    traces = [os.path.join(wd, f"tr.{i}.ndjson") for i in range(NCPU)]
+    agg = aggregate(validate(traces, wd, spec="FnLaws.tla", cfg=TRACE_CFG))
+    cnt = agg["cnt"]
+    write_json(os.path.join(wd, "findings.json"), {"viols": agg["viols"][:500]})
+
+    def replay_writer(v):
+        with open(v["_file"]) as f:
+            line = f.readlines()[v["line"] - 1]
+        return {"engine": "C/grok", "record": json.loads(line)}
+
+    coverage = {
+        "evaluations": cnt.get("laws", 0), "distinct_nontrivial": cnt.get(prop, 0),
+        "rule": "cases generated AND judged by Grok.tla: all 512 alias digraphs on three aliases over 8 definition bodies (cycle reachable from the "
+                "rule's alias <=> compilation rejected; otherwise the expansion matches its own text); literal rules of <= 2 (thorough 3) characters "
+                "over letters, digits, space and escaped metacharacters . [ ( * + ? | \\ against their own text and other texts; rules "
+                "%{P1:f} %{P2:g} over word/integer/notSpace x word/integer/notSpace/data on all inputs of <= 4 (thorough 5) characters over "
+                "{a,Z,1,2,-,_,space,.} (quick: 2500 matching + 2500 non-matching sampled) with the captures computed by the reference matcher",
+        "samples": [c["inp"] for c in cases[:3]],
+        "states": gst + agg["states"], "transitions": gtr + agg["transitions"], "traces_validated_against_impl": cnt.get("laws", 0),
+        "alias_graphs": len(cyc), "literal_rules": len(lits), "capture_cases": len(caps),
+    }
+    assumptions = ["the reference matcher covers rules of the shape `%{P1:f} %{P2:g}` (P1 without spaces), not the whole grok pattern library"]
+    mine = [v for v in agg["viols"] if v["prop"] == prop]
+    return verdict(prop, tier, seed, "exploration", coverage, mine, assumptions, t0, replay_writer)
